@@ -5,7 +5,8 @@ from props import ep_common as E
 from props import c08
 
 PROP = "C17"
-LAKE_TARGETS = ["Uflow.Props.C17", "uflow_driver"]
+LAKE_TARGETS = ["Uflow.Props.C17", "Uflow.Props.C17Timeout", "uflow_driver"]
+PROPS_FILES = ["C17", "C17Timeout"]
 TRUSTED_BASE = c08.TRUSTED_BASE
 ASSUMPTIONS = ["'established' = between the server's Connect event for an address and its terminal event (or the drop call)"]
 RULE = ("servers with max_active 1..4 and max_total 1..8 against up to 8 clients whose handshakes overlap in every order (many SYNs before any ACK), connections ending by "
